@@ -165,7 +165,7 @@ def run(ctx):
     preamble_all = "\n".join(pre) + "\n"
     failing = []
     for k, ((gen, ser, rec, s0, metric, pi, iplan), code) in enumerate(zip(owners, codes)):
-        if code & 1 and not rec["raised"] and len(failing) < 60:
+        if code & 1 and not rec["raised"] and len(failing) < 5000:
             failing.append((k, pi, gen, ser, iplan))
     diag = diagnose_all(ctx, failing, preamble_all) if failing else {}
     for k, ((gen, ser, rec, s0, metric, pi, iplan), code) in enumerate(zip(owners, codes)):
